@@ -11,4 +11,50 @@ Definition mon01 (c : cfg) (db : tokdb) (g : ghost) (s : step) : ghost * bool :=
    mon_ok_justified c db (s_now s) (s_req s) (s_trace s) (s_resp s) &&
    justified_by_history c g s).
 
-Definition run (hs : list hist) : list fail := take 20 (run_hists ghost [] mon01 0 hs).
+(* (c) the session timeouts of the store behind the handler (C10 at the level of verdicts): per session id, the time of
+   the write that created it and the time of the last performed store operation on it, rebuilt from the effects
+   (None = unknown, after a write or removal that was reported failed).  Both are taken leniently (any operation counts
+   as a use, one second of slack), so that an OK verdict flagged here is past its limit under either store's rule. *)
+Definition tghost := list (string * option (Z * Z)).
+Definition t_touch (now : Z) (tg : tghost) (sid : string) (creates : bool) : tghost :=
+  match lookup sid tg with
+  | Some (Some (cr, _)) => set_key sid (Some (cr, now)) tg
+  | Some None => tg
+  | None => if creates then set_key sid (Some (now, now)) tg else tg
+  end.
+Definition t_eff (now : Z) (tg : tghost) (ea : eff * ans) : tghost :=
+  match ea with
+  | (ESetAuth sid _, AUnit true) | (ESetTok sid _, AUnit true) => t_touch now tg sid true
+  | (ESetAuth sid _, AUnit false) | (ESetTok sid _, AUnit false) | (ERemove sid, AUnit false) | (EClearAuth sid, AUnit false) => set_key sid None tg
+  | (ERemove sid, AUnit true) => remove_key sid tg
+  | (EClearAuth sid, AUnit true) | (EGetTok sid, ATok (Some _)) | (EGetAuth sid, AAuth (Some _)) => t_touch now tg sid false
+  | _ => tg
+  end.
+Definition within_timeouts (abs idle : Z) (c : cfg) (tg : tghost) (s : step) : bool :=
+  match s_resp s with
+  | OAllow _ =>
+      match lookup (sid_of c s) tg with
+      | Some (Some (cr, last)) =>
+          ((abs =? 0)%Z || (s_now s <=? cr + abs + 1000000000)%Z) && ((idle =? 0)%Z || (s_now s <=? last + idle + 1000000000)%Z)
+      | _ => true
+      end
+  | _ => true
+  end.
+
+(* codes: 1 correspondence, 2 OK not justified, 6 OK for a session past one of its timeouts *)
+Fixpoint run_steps01 (abs idle : Z) (c : cfg) (db : tokdb) (g : ghost) (tg : tghost) (ci : nat) (ss : list step) (i : nat) : list fail :=
+  match ss with
+  | [] => []
+  | s :: ss' =>
+      let '(g', ok) := mon01 c db g s in
+      ((if ok then [] else [(ci, i, 2)]) ++
+       (if within_timeouts abs idle c tg s then [] else [(ci, i, 6)]) ++
+       (match replay_step c db s with 0 => [] | _ => [(ci, i, 1)] end) ++
+       run_steps01 abs idle c db g' (fold_left (t_eff (s_now s)) (s_trace s) tg) ci ss' (S i))%list
+  end.
+Fixpoint run_hists01 (ci : nat) (hs : list hist) : list fail :=
+  match hs with
+  | [] => []
+  | h :: hs' => (run_steps01 (h_abs h) (h_idle h) (h_cfg h) (db_of (h_db h)) [] [] ci (h_steps h) 0 ++ run_hists01 (S ci) hs')%list
+  end.
+Definition run (hs : list hist) : list fail := take 20 (run_hists01 0 hs).
